@@ -168,10 +168,52 @@ def judge(case, res):
     return uniq
 
 
+# programs cut off in the middle: the diagnostic is about the END of the file
+EOF_BODIES = [
+    "fn", "fn f(", "fn f(a: int", "fn f() {", "let x =", "let x = (1 +", "let x = [1,", "type Pt = {", "type Pt = {\n  x: int",
+    "match 1 {", "match 1 {\n  1 ->", "if true {", "while true {", "for i in", "let s = foo(", "extend int {", "implement ToString for int {",
+    "let f = (a, b) ->", "println(", "let t = (1, ", "type Col = |", "let x = 1 +", "use", "interface Sh {", "let q = not",
+]
+EOF_TAILS = ["", " ", "\n", " // é", " // 日本語", " /* € */", " /* 🙂", "\n// ñ", " // x", "\t", " /* é */ ", "\n\n// 😀😀", " 'é", ' "日本', " // a\u0301"]
+
+
+def eof_case(r):
+    nfill = r.range(0, 3)
+    src = "".join(filler_line(r, k) + "\n" for k in range(nfill)) + r.choice(EOF_BODIES) + r.choice(EOF_TAILS)
+    return {"main.abra": src}
+
+
+def judge_wellformed(files, res):
+    """the part of the oracle that needs no expected range"""
+    return [(c, w) for c, w in judge(("eof", "\0never", files, "main.abra", -1, -1), res) if c != "range"]
+
+
 def run(ctx):
     r0 = ctx.rng.fork("c33")
     per = 60 if ctx.quick else 1200
     cases, jobs = [], []
+    # ---- end-of-file family: no expected range, every diagnostic must be well-formed
+    neof = 600 if ctx.quick else 12000
+    ecases, ejobs = [], []
+    for i in range(neof):
+        files = eof_case(r0.fork("eof", i))
+        ecases.append(files)
+        ejobs.append({"id": "e%05d" % i, "mode": "lsp", "files": files, "render": True})
+    eres = ctx.run(ejobs)
+    eof_ok = eof_diags = eof_at_nonascii_end = 0
+    for files, job in zip(ecases, ejobs):
+        res = eres[job["id"]]
+        found = judge_wellformed(files, res)
+        diags = (res.get("lsp") or {}).get("diags") or []
+        eof_diags += len(diags)
+        for cls, what in found:
+            sig = "%s eof %s %s" % (PROP, cls, vlib.hhex(files["main.abra"])[:8])
+            ctx.candidate(sig, what + "\n--- main.abra ---\n" + files["main.abra"], job,
+                          lambda rr, files=files, sig=sig, cls=cls: [(sig, w) for c, w in judge_wellformed(files, rr) if c == cls])
+        if not found and diags:
+            eof_ok += 1
+            if ord(files["main.abra"][-1]) > 127:
+                eof_at_nonascii_end += 1
     for ti, tmpl in enumerate(T):
         for i in range(per):
             files, fname, lo, hi, feats = build(r0.fork(tmpl[0], i), tmpl, True)
@@ -200,8 +242,8 @@ def run(ctx):
             if any(ord(ch) > 127 for ch in src.encode("utf-8")[:case[4]].decode("utf-8", "ignore")):
                 nonascii_before += 1
     ctx.coverage(
-        evaluations=len(cases),
-        distinct_nontrivial=ok,
+        evaluations=len(cases) + len(ecases),
+        distinct_nontrivial=ok + eof_ok,
         rule="case = (kind of mistake, random filler and placement); all cases are distinct programs; distinct = cases whose planted mistake "
              "was reported in the right file with exactly the expected primary byte range and whose every diagnostic was well-formed",
         samples=[{"kind": cases[0][0], "files": cases[0][2], "expected_range": [cases[0][4], cases[0][5]]},
@@ -209,8 +251,11 @@ def run(ctx):
         kinds_confirmed=kinds_ok,
         placements=feats_h,
         cases_with_non_ascii_before_the_site=nonascii_before,
-        diagnostics_checked=ndiags,
+        diagnostics_checked=ndiags + eof_diags,
+        cut_off_programs_with_wellformed_diagnostics=eof_ok,
+        cut_off_programs_ending_in_a_multibyte_character=eof_at_nonascii_end,
     )
+    ctx.need(eof_at_nonascii_end >= 50 or bool(ctx.candidates), "fewer than 50 cut-off programs ending in a multi-byte character were diagnosed")
     ctx.need(ok >= 0.9 * len(cases) or bool(ctx.candidates), "fewer than 90% of the cases confirmed")
     ctx.need(nonascii_before >= 100, "fewer than 100 cases with non-ASCII text before the site")
 
